@@ -227,6 +227,14 @@ def run(cx: Cx):
             if present and e.data.get('store') == 'append' and strip_versions(e.data.get('target')) == Sub(pools, tkey) \
                     and e.data.get('args') == (comp,):
                 ok = True
+                # ... and only a component that is not listed yet: an instance listed twice stays listed after its agent left
+                if implies(p.cond, f_not(AIn(comp, Sub(pools, tkey)))) is not None:
+                    ok = False
+                    cx.violation('R-DISC', reg.qualname, 'pool-append-only-when-not-listed',
+                                 f"register_component appends to an existing pool on a path [{p.cond!r}] that has not established that "
+                                 f"the component is not listed yet: the same instance can be listed twice, and one copy stays listed "
+                                 f"after its agent left", where=cx.where(reg, e.line), path=p.lines())
+                    continue
             # new pool created empty and filled at once: pools[type(c)] = []; <that list>.append(c)
             if absent and e.data.get('store') == 'setitem' and strip_versions(e.data.get('target')) == pools and \
                     e.data.get('key') == tkey and isinstance(v, Fresh) and v.kind == 'list' and not v.items:
@@ -384,6 +392,8 @@ def run(cx: Cx):
     check_keyed_delete(cx, remc.qualname, CLOC, Attr(Sym(remc.params[0]), 'components'), Sym(remc.params[1]))
     from .common import check_no_stateful_memo
     check_no_stateful_memo(cx)
+    from .common import check_overrides_forward
+    check_overrides_forward(cx, CORE + 'Agent', ['add_component', 'remove_component', 'get_component', '__getitem__'])
     from .common import include_premises
     include_premises(cx, ['C04'], 'the listings mirror the resident agents only if residency itself is kept by add_agent / remove_agent alone',
                      only=lambda o: o.rule in ('R-DISC', 'R-ATOMIC') and ('agents' in o.key or o.function.endswith('.add_agent') or
